@@ -1426,6 +1426,11 @@ func loadViewFromJsonLinesFile(ctx context.Context, flags *option.Flags, fp *fil
 				break
 			}
 
+			if row == nil {
+				// blank line
+				continue
+			}
+
 			rowObj, ok := row.(txjson.Object)
 			if !ok {
 				err = NewJsonLinesStructureError(expr)
